@@ -62,15 +62,21 @@ def targetSegs (vp : Path) (target : String) : List String :=
   if isAbs target then (cleanComps true (comps target)).2
   else (cleanComps true (vp.dropLast ++ comps target)).2
 
+/-- `handleSymlink` -/
+def linkEntry (vp segs : Path) (isWh : Bool) (mode : Nat) (link : String) : PEntry :=
+  if link = "" then ⟨⟨vp, .link, isWh, mode, 0, 0, []⟩, segs, .fatal⟩
+  else if targetOutsideRoot vp link then ⟨⟨vp, .link, isWh, mode, 0, 0, []⟩, segs, .badlink⟩
+  else ⟨⟨vp, .link, isWh, mode, 0, 0, targetSegs vp link⟩, segs, .accept⟩
+
 /-- the type switch of the loop body: `handleDir` / `handleFile` / `handleSymlink` as acceptance tests -/
 def classify (limit : Nat) (r : RawEntry) (vp segs : Path) (isWh : Bool) : PEntry :=
   match r.typ with
   | 'd' => ⟨⟨vp, .dir, isWh, r.mode, 0, 0, []⟩, segs, .accept⟩
   | 'f' => ⟨⟨vp, .file, isWh, r.mode, r.size, r.cid, []⟩, segs, if r.size ≥ limit then .big else .accept⟩
-  | 's' | 'h' =>
-    if r.link = "" then ⟨⟨vp, .link, isWh, r.mode, 0, 0, []⟩, segs, .fatal⟩
-    else if targetOutsideRoot vp r.link then ⟨⟨vp, .link, isWh, r.mode, 0, 0, []⟩, segs, .badlink⟩
-    else ⟨⟨vp, .link, isWh, r.mode, 0, 0, targetSegs vp r.link⟩, segs, .accept⟩
+  | 's' => linkEntry vp segs isWh r.mode r.link
+  | 'h' =>
+    -- fix 810cd19c: a hard link names another entry of the archive: "/" + TrimPrefix(Linkname, "/")
+    linkEntry vp segs isWh r.mode ("/" ++ (if isAbs r.link then (r.link.drop 1).toString else r.link))
   | _ => ⟨⟨vp, .link, isWh, r.mode, 0, 0, []⟩, segs, .other⟩
 
 def normEntry (limit : Nat) (r : RawEntry) : Option PEntry :=
